@@ -13,4 +13,8 @@ if [ $need = 1 ]; then
   mkdir -p bin
   (cd checker && go build -o ../bin/emcheck .) || { echo "cannot build emcheck" >&2; exit 2; }
 fi
-exec ./bin/emcheck -property "$prop" -tier "$tier"
+./bin/emcheck -property "$prop" -tier "$tier"; rc=$?
+if [ "$tier" = thorough ] && [ $rc -ne 2 ]; then
+  python3 tools/thorough_post.py "$prop" || true
+fi
+exit $rc
